@@ -79,3 +79,25 @@ func Dedup(xs []string) []string {
 	}
 	return SortedKeys(m)
 }
+
+// DiffSets compares two multisets of strings.
+func DiffSets(exp, got []string) (missing, extra []string) {
+	e := map[string]int{}
+	for _, x := range exp {
+		e[x]++
+	}
+	for _, x := range got {
+		if e[x] > 0 {
+			e[x]--
+		} else {
+			extra = append(extra, x)
+		}
+	}
+	for x, n := range e {
+		for i := 0; i < n; i++ {
+			missing = append(missing, x)
+		}
+	}
+	sort.Strings(missing)
+	return
+}
